@@ -24,7 +24,7 @@ def _job(job):
     kind = job.get("kind", "run")
     if kind == "run":
         rec, s, tr = drivers.record_run(job["conf"], n_total=job.get("n_total", 32), seed=job["seed"], label=job.get("label", ""),
-                                        posterior_flags=job.get("flags"))
+                                        posterior_flags=job.get("flags"), manual_iters=job.get("manual_iters", 0))
         return [tr] if tr is not None else []
     raise ValueError(kind)
 
